@@ -294,6 +294,9 @@ func checkSignMerge(c *fw.Ctx, sign *ssa.Function) {
 				return isFa && derefStructOf(fa.X.Type()) != nil && derefStructOf(fa.X.Type()).Field(fa.Field).Name() == "Unsigned"
 			}, All: true})
 			c.Check(ok, rule, "SignJSON writes back the preserved unsigned", c.P.Pos(call.Pos()), "", "the unsigned member written back is not the one preserved from the input")
+		case "":
+			// the member name is not a constant here (a loop over a list of names): not decided
+			c.Undecided(rule, "SignJSON sets only signatures/unsigned", "a member is written under a name that could not be resolved to a constant at "+c.P.Pos(call.Pos()))
 		default:
 			c.Fail(rule, fmt.Sprintf("SignJSON sets only signatures/unsigned (found %q)", key), c.P.Pos(call.Pos()), "SignJSON writes an unexpected member into the signed object")
 		}
